@@ -97,6 +97,7 @@ NoDoctype == [present |-> FALSE, n |-> <<>>, ext |-> "none", pub |-> <<>>, sys |
 InitState ==
   [phase |-> "start", stack |-> <<>>, open |-> <<>>, seenDoctype |-> FALSE, extSubset |-> FALSE,
    ents |-> <<>>, unparsed |-> {}, external |-> {}, attlists |-> <<>>, pendingCr |-> FALSE,
+   eol |-> TRUE,      \* 2.11 line-end handling on (FALSE only in the as-is model of a catalogued finding)
    tree |-> [xmldecl |-> NoXmlDecl, doctype |-> NoDoctype, nodes |-> <<>>],
    wf |-> TRUE, inprofile |-> TRUE, viol |-> <<>>]
 
@@ -117,7 +118,8 @@ AddChars(st, cs) ==
 
 \* one literal source character of content: 2.11 across item and token boundaries
 AddLiteral1(st, c) ==
-  IF c = 13 THEN [AddChars(st, <<10>>) EXCEPT !.pendingCr = TRUE]
+  IF ~st.eol THEN AddChars(st, <<c>>)
+  ELSE IF c = 13 THEN [AddChars(st, <<10>>) EXCEPT !.pendingCr = TRUE]
   ELSE IF c = 10 /\ st.pendingCr THEN [st EXCEPT !.pendingCr = FALSE]
   ELSE [AddChars(st, <<c>>) EXCEPT !.pendingCr = FALSE]
 
@@ -244,7 +246,7 @@ Viol(st, tok) ==
                    [] k = "attlist"  -> First(<<NameViol(tok.el, TRUE)>>
                                               \o [i \in 1..Len(tok.defs) |-> DefViol(tok.defs[i], st)])
                    [] k = "elemdecl" -> NameViol(tok.n, TRUE)>>)
-    [] k = "dtdend" -> If(ph # "dtd", "StrayDtdEnd")
+    [] k = "dtdend" -> If(ph \notin {"dtd", "content"}, "StrayDtdEnd")   \* in content "]>" is character data
     [] k = "stag" ->
          First(<<If(ph = "dtd", "MarkupInDtd"), If(ph = "epilog", "SecondRoot"),
                  If(ph = "accept", "AfterEnd"),
@@ -327,6 +329,7 @@ TokenSane(tok) ==
 (* Effects (total; they keep the phase structure going after a bad token   *)
 (* so that later tokens are judged in a sensible context).                 *)
 (***************************************************************************)
+EolIf(st, s) == IF st.eol THEN Eol(s) ELSE s
 LeaveStart(st) == IF st.phase = "start" THEN [st EXCEPT !.phase = "prolog"] ELSE st
 
 NonNs(attrs) == SelectSeq(attrs, LAMBDA a : ~IsNsAttrName(a.n))
@@ -365,11 +368,11 @@ Apply(st, tok) ==
     [] k = "ws" -> IF st.phase = "content" THEN AddLiteral(st, tok.v) ELSE LeaveStart(st)
     [] k = "comment" ->
          IF st.phase = "dtd" THEN st
-         ELSE AddNode(LeaveStart(st), Node("comment", CurParent(st), <<>>, Eol(tok.v), {}))
+         ELSE AddNode(LeaveStart(st), Node("comment", CurParent(st), <<>>, EolIf(st, tok.v), {}))
     [] k = "pi" ->
          IF st.phase = "dtd"
-         THEN [st EXCEPT !.tree.doctype.pis = Append(@, [n |-> tok.n, v |-> Eol(DropWs(tok.v))])]
-         ELSE AddNode(LeaveStart(st), Node("pi", CurParent(st), tok.n, Eol(DropWs(tok.v)), {}))
+         THEN [st EXCEPT !.tree.doctype.pis = Append(@, [n |-> tok.n, v |-> EolIf(st, DropWs(tok.v))])]
+         ELSE AddNode(LeaveStart(st), Node("pi", CurParent(st), tok.n, EolIf(st, DropWs(tok.v)), {}))
     [] k = "doctype" ->
          [st EXCEPT !.phase = IF tok.subset THEN "dtd" ELSE "afterDtd",
                     !.seenDoctype = TRUE,
@@ -402,7 +405,11 @@ Apply(st, tok) ==
                                    [n |-> tok.defs[i].n, ty |-> tok.defs[i].ty, dk |-> tok.defs[i].dk,
                                     dv |-> StripX(tok.defs[i].dv)]]])]
     [] k = "elemdecl" -> st
-    [] k = "dtdend" -> IF st.phase = "dtd" THEN [st EXCEPT !.phase = "afterDtd"] ELSE st
+    [] k = "dtdend" -> IF st.phase = "dtd" THEN [st EXCEPT !.phase = "afterDtd"]
+                       \* as character data it denotes "]", the style's white space, ">": not a
+                       \* function of the tokens alone, so the document leaves the C01 profile
+                       ELSE IF st.phase = "content" THEN [st EXCEPT !.inprofile = FALSE, !.pendingCr = FALSE]
+                       ELSE st
     [] k = "stag" ->
          LET st1 == AddNode(st, Node("elem", CurParent(st), tok.n, <<>>, ElementAttrs(st, tok)))
          IN [st1 EXCEPT !.phase = "content", !.stack = Append(@, tok.n),
@@ -437,6 +444,9 @@ RECURSIVE Fold(_, _)
 Fold(st, toks) == IF toks = <<>> THEN st ELSE Fold(Step(st, Head(toks)), Tail(toks))
 
 \* the recogniser: what a token sequence (ending with "end") denotes
+RecognizeFrom(init, toks) ==
+  LET st == Fold(init, toks)
+  IN [wf |-> st.wf /\ st.phase = "accept", viol |-> st.viol, inprofile |-> st.inprofile, tree |-> st.tree]
 Recognize(toks) ==
   LET st == Fold(InitState, toks)
   IN [wf |-> st.wf /\ st.phase = "accept", viol |-> st.viol, inprofile |-> st.inprofile, tree |-> st.tree]
